@@ -13,7 +13,7 @@ from cvise.passes.clang import ClangPass
 OBLIGATIONS = ['Cvise.C15.request_in_range', 'Cvise.C15.first_request', 'Cvise.C15.next_request_adjacent',
                'Cvise.C15.last_request_reaches_end', 'Cvise.C15.wrap_restarts', 'Cvise.C15.after_accept',
                'Cvise.C15.level_tiles', 'Cvise.C15.level_tiles_from', 'Cvise.C15.level_tiles_after_accept',
-               'Cvise.C15.every_instance_requested', 'Cvise.C15.no_instance_requested_twice',
+               'Cvise.C15.first_level_tiles', 'Cvise.C15.next_level_tiles', 'Cvise.C15.every_instance_requested', 'Cvise.C15.no_instance_requested_twice',
                'Cvise.C15.best_std_spec', 'Cvise.C15.shipped_cmp_is_ge', 'Cvise.gen_advance_eq', 'Cvise.gen_aos_eq',
                'Cvise.C15.failed_run_output_unused', 'Cvise.C15.signal_deaths_are_errors', 'Cvise.C15.run_table_complete']
 
